@@ -13,4 +13,4 @@ if ! ./build.sh >bin/build.log 2>&1; then
   echo "VIOLATION property=$id replay=build-failure"
   exit 1
 fi
-exec bin/vsa -p "$id" -tier "$tier" -repo "${VERIF_REPO:-/repo}" -evidence "evidence/$id.json" -findings "$here/known_findings.txt"
+exec bin/vsa -p "$id" -tier "$tier" -repo "${VERIF_REPO:-/repo}" -evidence "evidence/$id.json" -findings "$here/known_findings.txt" -selftest "$here/selftest"
